@@ -11,13 +11,40 @@ Local Open Scope Z_scope.
 (* ------------------------------------------------------------------------------------------------ *)
 (* string -> number                                                                                 *)
 (* ------------------------------------------------------------------------------------------------ *)
-Definition num_char (b : N) : bool := is_digit b || (b =? 46)%N.
+Definition B (l : list Z) : bytes := map Z.to_N l.
 
-Lemma drop_while_head f s : match s with b :: _ => f b = false | [] => True end -> drop_while f s = s.
-Proof. destruct s as [|b r]; cbn; [reflexivity|]. intro H. rewrite H. reflexivity. Qed.
+(* white space is neither a digit nor the point *)
+Definition no_num_head (w : bytes) : Prop :=
+  match w with b :: _ => is_digit b = false /\ (b =? 46)%N = false | [] => True end.
 
-Lemma num_char_not_space b : num_char b = true -> c_isspace b = false /\ is_xmlws b = false.
-Proof. unfold num_char, c_isspace, is_xmlws, is_digit. intro H. split; lia. Qed.
+Lemma ws_no_num_head w : forallb is_xmlws w = true -> no_num_head w.
+Proof.
+  destruct w as [|b r]; [exact (fun _ => I)|]. cbn [forallb no_num_head]. intro H.
+  apply andb_true_iff in H. destruct H as [H _]. unfold is_xmlws, is_digit in *. lia.
+Qed.
+
+Lemma take_digits_app p w : no_num_head w -> forall acc cnt,
+  take_digits (p ++ w) acc cnt = let '(v, c, r) := take_digits p acc cnt in (v, c, r ++ w).
+Proof.
+  intro Hw. induction p as [|d p' IH]; intros acc cnt; cbn [app take_digits].
+  - destruct w as [|b r]; [reflexivity|]. cbn [take_digits]. destruct Hw as [Hd _]. rewrite Hd. reflexivity.
+  - destruct (is_digit d); [apply IH|reflexivity].
+Qed.
+
+Lemma parse_mantissa_app p w : no_num_head w ->
+  parse_mantissa (p ++ w) = match parse_mantissa p with Some (q, r) => Some (q, r ++ w) | None => None end.
+Proof.
+  intro Hw. unfold parse_mantissa. rewrite (take_digits_app p w Hw).
+  destruct (take_digits p 0%N 0%nat) as [[v1 c1] r1].
+  destruct r1 as [|b r1']; cbn [app].
+  - assert (He : eat 46 w = None).
+    { destruct w as [|x r]; [reflexivity|]. cbn [eat]. destruct Hw as [_ Hx]. rewrite Hx. reflexivity. }
+    rewrite He. cbn [eat]. destruct (c1 =? 0)%nat; reflexivity.
+  - cbn [eat]. destruct (b =? 46)%N.
+    + rewrite (take_digits_app r1' w Hw). destruct (take_digits r1' 0%N 0%nat) as [[v2 c2] r2].
+      destruct (c1 + c2 =? 0)%nat; reflexivity.
+    + destruct (c1 =? 0)%nat; reflexivity.
+Qed.
 
 Lemma take_digits_rest s : forall acc cnt, exists pre, s = pre ++ snd (take_digits s acc cnt).
 Proof.
@@ -28,165 +55,124 @@ Proof.
     + exists []. reflexivity.
 Qed.
 
-Lemma forallb_suffix (f : N -> bool) pre s : forallb f (pre ++ s) = true -> forallb f s = true.
-Proof. rewrite forallb_app. intro H. apply andb_true_iff in H. apply H. Qed.
-
-(* the rest after the mantissa is a suffix, so it consists of the same kind of characters *)
-Lemma parse_mantissa_rest s q r : forallb num_char s = true -> parse_mantissa s = Some (q, r) ->
-  forallb num_char r = true.
+(* what the mantissa scanner leaves is a suffix of its input *)
+Lemma parse_mantissa_suffix s q r : parse_mantissa s = Some (q, r) -> exists pre, s = pre ++ r.
 Proof.
-  intros Hs H. unfold parse_mantissa in H.
-  destruct (take_digits s 0%N 0%nat) as [[v1 c1] r1] eqn:H1.
+  unfold parse_mantissa. destruct (take_digits s 0%N 0%nat) as [[v1 c1] r1] eqn:H1.
   destruct (take_digits_rest s 0%N 0%nat) as [pre1 Hp1]. rewrite H1 in Hp1. cbn [snd] in Hp1.
-  assert (Hr1 : forallb num_char r1 = true) by (eapply forallb_suffix; rewrite <- Hp1; exact Hs).
-  unfold eat in H. destruct r1 as [|b r1'].
-  - destruct (c1 =? 0)%nat; inversion H; subst; reflexivity.
+  destruct r1 as [|b r1']; cbn [eat].
+  - destruct (c1 =? 0)%nat; intro H; [discriminate|]. injection H as _ Hr. rewrite <- Hr. exists pre1. exact Hp1.
   - destruct (b =? 46)%N.
     + destruct (take_digits r1' 0%N 0%nat) as [[v2 c2] r2] eqn:H2.
       destruct (take_digits_rest r1' 0%N 0%nat) as [pre2 Hp2]. rewrite H2 in Hp2. cbn [snd] in Hp2.
-      destruct (c1 + c2 =? 0)%nat; inversion H; subst r.
-      cbn [forallb] in Hr1. apply andb_true_iff in Hr1. destruct Hr1 as [_ Hr1].
-      eapply forallb_suffix. rewrite <- Hp2. exact Hr1.
-    + destruct (c1 =? 0)%nat; inversion H; subst; exact Hr1.
+      destruct (c1 + c2 =? 0)%nat; intro H; [discriminate|]. injection H as _ Hr. rewrite <- Hr.
+      exists (pre1 ++ b :: pre2). rewrite <- app_assoc. cbn [app]. rewrite <- Hp2. exact Hp1.
+    + destruct (c1 =? 0)%nat; intro H; [discriminate|]. injection H as _ Hr. rewrite <- Hr. exists pre1. exact Hp1.
 Qed.
 
-Lemma ci_prefix_num p0 p s : forallb num_char s = true -> (97 <= p0)%N -> ci_prefix (p0 :: p) s = None \/ s = [].
+(* drop_while / trim_right *)
+Lemma drop_while_split (f : N -> bool) s : exists w, s = w ++ drop_while f s /\ forallb f w = true.
 Proof.
-  intros Hs Hp. destruct s as [|b r]; [right; reflexivity|left].
-  cbn [forallb] in Hs. apply andb_true_iff in Hs. destruct Hs as [Hb _].
-  cbn [ci_prefix]. unfold c_lower. unfold num_char, is_digit in Hb.
-  replace ((65 <=? b)%N && (b <=? 90)%N) with false by lia.
-  replace (p0 =? b)%N with false by lia. reflexivity.
+  induction s as [|b r IH]; cbn [drop_while].
+  - exists []. split; reflexivity.
+  - destruct (f b) eqn:Hb.
+    + destruct IH as [w [Hs Hw]]. exists (b :: w). cbn [app forallb]. rewrite Hb, Hw. split; [f_equal; exact Hs|reflexivity].
+    + exists []. split; reflexivity.
 Qed.
 
-Lemma parse_exp_num m1 m2 s : forallb num_char s = true -> (65 <= m1)%N -> (65 <= m2)%N ->
-  parse_exp m1 m2 s = (0, s).
+Lemma drop_while_hd (f : N -> bool) s : match drop_while f s with b :: _ => f b = false | [] => True end.
 Proof.
-  intros Hs H1 H2. destruct s as [|b r]; [reflexivity|].
-  cbn [forallb] in Hs. apply andb_true_iff in Hs. destruct Hs as [Hb _]. unfold num_char, is_digit in Hb.
-  cbn [parse_exp]. replace ((b =? m1)%N || (b =? m2)%N) with false by lia. reflexivity.
+  induction s as [|b r IH]; cbn [drop_while]; [exact I|].
+  destruct (f b) eqn:Hb; [exact IH|exact Hb].
 Qed.
 
-Lemma trim_right_id f s : forallb (fun b => negb (f b)) s = true -> trim_right f s = s.
+Lemma drop_while_nil (f : N -> bool) s : drop_while f s = [] -> forallb f s = true.
 Proof.
-  intro H. unfold trim_right.
-  rewrite drop_while_head; [apply rev_involutive|].
-  destruct (rev s) as [|b r] eqn:Hr; [exact I|].
-  assert (Hin : In b s) by (apply in_rev; rewrite Hr; left; reflexivity).
-  rewrite forallb_forall in H. specialize (H b Hin). destruct (f b); [discriminate|reflexivity].
+  induction s as [|b r IH]; cbn [drop_while forallb]; [reflexivity|].
+  destruct (f b); [exact IH|discriminate].
 Qed.
 
-(* on the lexical space of XPath numbers without surrounding white space - an optional minus sign followed by
-   digits and points - strtold() and the recommendation agree (malformed ones such as 1.2.3 or a lone . are NaN
-   for both) *)
-Theorem s2n_impl_eq_spec_plain prec (neg : bool) body :
-  forallb num_char body = true ->
-  impl_s2n prec ((if neg then [45%N] else []) ++ body) = spec_s2n prec ((if neg then [45%N] else []) ++ body).
+Lemma drop_while_all (f : N -> bool) s : forallb f s = true -> drop_while f s = [].
 Proof.
-  intro Hb. set (s := (if neg then [45%N] else []) ++ body).
-  assert (Hall : forallb (fun b => num_char b || (b =? 45)%N) s = true).
-  { subst s. rewrite forallb_app. apply andb_true_iff. split.
-    - destruct neg; reflexivity.
-    - rewrite forallb_forall in *. intros x Hx. rewrite (Hb x Hx). reflexivity. }
-  assert (Hnosp : forall f : N -> bool, (forall b, num_char b || (b =? 45)%N = true -> f b = false) ->
-                                  drop_while f s = s /\ trim_right f s = s).
-  { intros f Hf. split.
-    - apply drop_while_head. destruct s as [|b r] eqn:Hs; [exact I|].
-      apply Hf. cbn [forallb] in Hall. apply andb_true_iff in Hall. apply Hall.
-    - apply trim_right_id. rewrite forallb_forall in *. intros x Hx. rewrite (Hf x (Hall x Hx)). reflexivity. }
-  assert (Hsign : forall plus, eat_sign plus s = (neg, body)).
-  { intro plus. subst s. destruct neg; cbn [app]; unfold eat_sign.
-    - reflexivity.
-    - destruct body as [|b r]; [reflexivity|].
-      cbn [forallb] in Hb. apply andb_true_iff in Hb. destruct Hb as [Hb0 _]. unfold num_char, is_digit in Hb0.
-      replace (b =? 45)%N with false by lia. replace (plus && (b =? 43)%N) with false by lia. reflexivity. }
-  unfold impl_s2n, spec_s2n.
-  destruct (Hnosp c_isspace) as [Hd1 _].
-  { intros b H. unfold c_isspace. unfold num_char, is_digit in H. lia. }
-  destruct (Hnosp is_xmlws) as [Hd2 Ht2].
-  { intros b H. unfold is_xmlws. unfold num_char, is_digit in H. lia. }
-  rewrite Hd1, Hd2, Ht2, !Hsign.
-  destruct (ci_prefix_num 105%N [110; 102; 105; 110; 105; 116; 121]%N body Hb ltac:(lia)) as [Hc1|Hnil].
-  2:{ subst body. reflexivity. }
-  rewrite Hc1.
-  destruct (ci_prefix_num 105%N [110; 102]%N body Hb ltac:(lia)) as [Hc2|Hnil]; [|subst body; reflexivity].
-  rewrite Hc2.
-  assert (Hhex : match body with
-                 | z :: x :: r => (z =? 48)%N && ((x =? 120)%N || (x =? 88)%N)
-                 | _ => false
-                 end = false).
-  { destruct body as [|z [|x r]]; try reflexivity.
-    cbn [forallb] in Hb. apply andb_true_iff in Hb. destruct Hb as [_ Hb].
-    apply andb_true_iff in Hb. destruct Hb as [Hx _]. unfold num_char, is_digit in Hx. lia. }
-  assert (Hnohex : parse_hex body = None).
-  { unfold parse_hex. destruct body as [|z [|x r]]; try reflexivity. rewrite Hhex. reflexivity. }
-  rewrite Hnohex.
-  destruct (parse_mantissa body) as [[q r]|] eqn:Hm; [|reflexivity].
-  pose proof (parse_mantissa_rest _ _ _ Hb Hm) as Hr.
-  rewrite (parse_exp_num 101 69 r Hr) by lia.
-  destruct r as [|b r']; [|reflexivity].
-  replace (0 =? 0) with true by reflexivity.
-  destruct (q_is_zero q) eqn:Hz.
-  - unfold rnd. unfold q_is_zero in Hz. replace (Qnum q <=? 0) with true by lia. reflexivity.
-  - replace ((0 <? -4900) || (4900 <? 0)) with false by reflexivity. reflexivity.
+  induction s as [|b r IH]; cbn [drop_while forallb]; [reflexivity|].
+  destruct (f b); [exact IH|discriminate].
 Qed.
 
-Definition B (l : list Z) : bytes := map Z.to_N l.
-
-(* what strtold() accepts beyond the recommendation, and what it rejects *)
-Example s2n_exponent_refuted : impl_s2n 64 (B [49; 101; 51]) = x_of_Z 1000 /\ spec_s2n 53 (B [49; 101; 51]) = XNaN.
-Proof. split; vm_compute; reflexivity. Qed.
-Example s2n_plus_refuted : impl_s2n 64 (B [43; 53]) = x_of_Z 5 /\ spec_s2n 53 (B [43; 53]) = XNaN.
-Proof. split; vm_compute; reflexivity. Qed.
-Example s2n_hex_refuted : impl_s2n 64 (B [48; 120; 49; 48]) = x_of_Z 16 /\ spec_s2n 53 (B [48; 120; 49; 48]) = XNaN.
-Proof. split; vm_compute; reflexivity. Qed.
-Example s2n_inf_refuted : impl_s2n 64 (B [105; 110; 102]) = XInf false /\ spec_s2n 53 (B [105; 110; 102]) = XNaN.
-Proof. split; vm_compute; reflexivity. Qed.
-(* trailing white space: the recommendation allows it, strtold() does not consume it *)
-Example s2n_trailing_space_refuted : impl_s2n 64 (B [32; 53; 32]) = XNaN /\ spec_s2n 53 (B [32; 53; 32]) = x_of_Z 5.
-Proof. split; vm_compute; reflexivity. Qed.
-(* leading white space of isspace() that is not XML white space (vertical tab) *)
-Example s2n_vtab_refuted : impl_s2n 64 (B [11; 53]) = x_of_Z 5 /\ spec_s2n 53 (B [11; 53]) = XNaN.
-Proof. split; vm_compute; reflexivity. Qed.
-
-(* ------------------------------------------------------------------------------------------------ *)
-(* number -> string                                                                                 *)
-(* ------------------------------------------------------------------------------------------------ *)
-(* integers in the long long range, both zeros, NaN and the infinities are printed as the recommendation says *)
-Theorem n2s_impl_eq_spec_int prec neg z : 0 <= z <= ll_max ->
-  impl_n2s (XFin neg (inject_Z z)) = spec_n2s prec (XFin neg (inject_Z z)).
+Lemma forallb_rev (f : N -> bool) s : forallb f s = true -> forallb f (rev s) = true.
 Proof.
-  intro Hz. unfold impl_n2s, spec_n2s.
-  destruct (q_is_zero (inject_Z z)); [reflexivity|].
-  assert (Hint : q_is_int (inject_Z z) = true).
-  { unfold q_is_int. cbn [inject_Z Qnum Qden]. rewrite Z.mod_1_r. reflexivity. }
-  assert (Hval : q_int_val (inject_Z z) = z).
-  { unfold q_int_val. cbn [inject_Z Qnum Qden]. apply Z.div_1_r. }
-  rewrite Hint, Hval. cbn [andb].
-  unfold ll_min, ll_max in *.
-  destruct neg.
-  - replace ((- 2 ^ 63 <=? - z) && (- z <=? 2 ^ 63 - 1)) with true by lia. reflexivity.
-  - replace ((- 2 ^ 63 <=? z) && (z <=? 2 ^ 63 - 1)) with true by lia. reflexivity.
+  rewrite !forallb_forall. intros H x Hx. apply H. apply in_rev. exact Hx.
 Qed.
 
-Theorem n2s_impl_eq_spec_special prec : 
-  impl_n2s XNaN = spec_n2s prec XNaN /\ (forall neg, impl_n2s (XInf neg) = spec_n2s prec (XInf neg)).
-Proof. split; [reflexivity|intro neg; reflexivity]. Qed.
+(* a string ends with no white space when its only suffix of white space is the empty one *)
+Definition no_ws_tail (p : bytes) : Prop := forall pre r, p = pre ++ r -> forallb is_xmlws r = true -> r = [].
 
-(* '%03.1Lf': one fraction digit only *)
-Example n2s_quarter_refuted :
-  impl_n2s (XFin false (1 # 4)) = B [48; 46; 50] /\ spec_n2s 53 (XFin false (1 # 4)) = B [48; 46; 50; 53].
-Proof. split; vm_compute; reflexivity. Qed.
-(* string(-0.05): the long double nearest to 0.05 rounds to '-0.1'; the recommendation gives '-0.05' *)
-Example n2s_minus_005_refuted :
-  impl_n2s (impl_s2n 64 (B [45; 48; 46; 48; 53])) = B [45; 48; 46; 49] /\
-  spec_n2s 53 (spec_s2n 53 (B [45; 48; 46; 48; 53])) = B [45; 48; 46; 48; 53].
-Proof. split; vm_compute; reflexivity. Qed.
-(* integers beyond the long long range get '.0' *)
-Example n2s_big_refuted :
-  impl_n2s (XFin false (inject_Z (2 ^ 63))) = B [57;50;50;51;51;55;50;48;51;54;56;53;52;55;55;53;56;48;56;46;48] /\
-  spec_n2s 53 (XFin false (inject_Z (2 ^ 63))) = B [57;50;50;51;51;55;50;48;51;54;56;53;52;55;55;53;56;48;56].
-Proof. split; vm_compute; reflexivity. Qed.
+Lemma trim_right_split s : exists w, s = trim_right is_xmlws s ++ w /\ forallb is_xmlws w = true /\
+  no_ws_tail (trim_right is_xmlws s).
+Proof.
+  unfold trim_right. destruct (drop_while_split is_xmlws (rev s)) as [w [Hs Hw]].
+  exists (rev w). split; [|split].
+  - rewrite <- rev_app_distr, <- Hs. symmetry. apply rev_involutive.
+  - apply forallb_rev. exact Hw.
+  - intros pre r Hp Hr. pose proof (drop_while_hd is_xmlws (rev s)) as Hh.
+    apply (f_equal (@rev N)) in Hp. rewrite rev_involutive, rev_app_distr in Hp. rewrite Hp in Hh.
+    destruct (rev r) as [|x rr] eqn:Hrr.
+    + apply (f_equal (@rev N)) in Hrr. rewrite rev_involutive in Hrr. exact Hrr.
+    + cbn [app] in Hh. apply forallb_rev in Hr. rewrite Hrr in Hr. cbn [forallb] in Hr.
+      rewrite Hh in Hr. discriminate.
+Qed.
+
+Lemma no_ws_tail_cons b p : no_ws_tail (b :: p) -> no_ws_tail p.
+Proof. intros H pre r Hp Hr. apply (H (b :: pre) r); [cbn; f_equal; exact Hp|exact Hr]. Qed.
+
+(* scanning and then skipping white space up to the end = trimming first and then scanning up to the end *)
+Lemma scan_then_skip prec neg p w : forallb is_xmlws w = true -> no_ws_tail p ->
+  match parse_mantissa (p ++ w) with
+  | Some (q, r) => match drop_while is_xmlws r with [] => XFin neg (rnd prec q) | _ :: _ => XNaN end
+  | None => XNaN
+  end =
+  match parse_mantissa p with Some (q, []) => XFin neg (rnd prec q) | _ => XNaN end.
+Proof.
+  intros Hw Hp. rewrite (parse_mantissa_app p w (ws_no_num_head w Hw)).
+  destruct (parse_mantissa p) as [[q r]|] eqn:Hm; [|reflexivity].
+  destruct r as [|b r']; cbn [app].
+  - rewrite (drop_while_all is_xmlws w Hw). reflexivity.
+  - destruct (drop_while is_xmlws (b :: r' ++ w)) as [|x rest] eqn:Hd; [|reflexivity].
+    exfalso. apply drop_while_nil in Hd. change (b :: r' ++ w) with ((b :: r') ++ w) in Hd.
+    rewrite forallb_app in Hd. apply andb_true_iff in Hd. destruct Hd as [Hr _].
+    destruct (parse_mantissa_suffix p q (b :: r') Hm) as [pre Hpre].
+    discriminate (Hp pre (b :: r') Hpre Hr).
+Qed.
+
+(* cast_string_to_number() (since /repo b906576) is number() of the recommendation for EVERY string: white space,
+   sign, malformed numbers, exponents, hexadecimal, inf/nan, anything *)
+Theorem s2n_impl_eq_spec prec s : impl_s2n prec s = spec_s2n prec s.
+Proof.
+  unfold impl_s2n, spec_s2n. set (d := drop_while is_xmlws s).
+  destruct (trim_right_split d) as [w [Hd [Hw Ht]]]. set (t := trim_right is_xmlws d) in *.
+  destruct t as [|b t'] eqn:Et.
+  - (* only white space: nothing is left *)
+    cbn [app] in Hd. pose proof (drop_while_hd is_xmlws s) as Hh. fold d in Hh. rewrite Hd in Hh.
+    destruct w as [|x w']; [|cbn [forallb] in Hw; rewrite Hh in Hw; discriminate].
+    rewrite Hd. reflexivity.
+  - rewrite Hd. cbn [app]. unfold eat_sign. cbn [andb].
+    destruct (b =? 45)%N.
+    + apply scan_then_skip; [exact Hw|exact (no_ws_tail_cons b t' Ht)].
+    + change (b :: t' ++ w) with ((b :: t') ++ w). apply scan_then_skip; [exact Hw|exact Ht].
+Qed.
+
+(* regression values: what only strtold() accepted is NaN now, trailing white space is accepted
+   (each was a listed deviation until /repo b906576) *)
+Example s2n_regression :
+  impl_s2n 64 (B [49; 101; 51]) = XNaN /\                       (* 1e3 *)
+  impl_s2n 64 (B [43; 53]) = XNaN /\                            (* +5 *)
+  impl_s2n 64 (B [48; 120; 49; 48]) = XNaN /\                   (* 0x10 *)
+  impl_s2n 64 (B [105; 110; 102]) = XNaN /\                     (* inf *)
+  impl_s2n 64 (B [11; 53]) = XNaN /\                            (* vertical tab 5 *)
+  impl_s2n 64 (B [32; 53; 32]) = x_of_Z 5 /\                    (* blank 5 blank *)
+  impl_s2n 64 (B [45; 46; 53]) = XFin true (1 # 2) /\           (* -.5 *)
+  impl_s2n 64 (B [53; 46]) = x_of_Z 5 /\ impl_s2n 64 (B [46]) = XNaN /\ impl_s2n 64 (B [45]) = XNaN /\
+  impl_s2n 64 (B [49; 46; 50; 46; 51]) = XNaN.                  (* 1.2.3 *)
+Proof. repeat split; vm_compute; reflexivity. Qed.
 
 (* ------------------------------------------------------------------------------------------------ *)
 (* floor / ceiling / round                                                                          *)
